@@ -118,7 +118,8 @@ real_t modReal(real_t x, real_t y) {
 std::unique_ptr<Number> Number::operator%(const Number &other) const {
     int type = mergeType(real, other.real);
     if (type == mergeType(false, false)) { // int, int
-        int_t x = ((Integer*) this)->value % (Integer&) other;
+        int_t divisor = (Integer&) other;
+        int_t x = divisor == -1 ? 0 : ((Integer*) this)->value % divisor;
         return std::make_unique<Integer>(x);
     }
 
@@ -142,7 +143,8 @@ std::unique_ptr<Number> Number::operator%(const Number &other) const {
 std::unique_ptr<Number> Number::operator|(const Number &other) const {
     int type = mergeType(real, other.real);
     if (type == mergeType(false, false)) { // int, int
-        int_t x = ((Integer*) this)->value / (Integer&) other;
+        int_t divisor = (Integer&) other;
+        int_t x = divisor == -1 ? (int_t) (0UL - (unsigned long) ((Integer*) this)->value) : ((Integer*) this)->value / divisor;
         return std::make_unique<Integer>(x);
     }
     
